@@ -97,6 +97,7 @@ type fakeIDP struct {
 	jwksGet       func() jwk.Set
 	jwksRefresh   func() jwk.Set
 	jwksRefreshes int
+	preToken      func(r *http.Request) // called when a token request has ARRIVED and before it is answered
 	// shape of the code-grant token response (C10 login shapes): no refresh_token member; expires_in absent / zero / negative / huge
 	loginNoRT      bool
 	loginExpiresIn string
@@ -199,6 +200,10 @@ func (p *fakeIDP) ServeHTTP(w http.ResponseWriter, r *http.Request) {
 	}
 	switch r.URL.Path {
 	case "/token":
+		if p.preToken != nil {
+			r.ParseForm()
+			p.preToken(r) // (outside the provider's lock: a driver may run further requests while this one is in flight)
+		}
 		p.token(w, r)
 	case "/par":
 		p.par(w, r)
